@@ -1227,6 +1227,26 @@ func ruleApplyBeforeRotate(r *Report) {
 	n := 0
 	for _, fn := range loggingFuncs(p) {
 		rot := CallsIn(fn, Keys("simpledb.DB.rotateWalAndFlushMemstore"))
+		// … or a call of a module helper that rotates
+		eachInstr(fn, func(s Site) {
+			c, ok := s.Instr.(*ssa.Call)
+			if !ok {
+				return
+			}
+			sc := c.Call.StaticCallee()
+			if sc == nil || !inModule(sc) || FuncKey(sc) == "simpledb.DB.rotateWalAndFlushMemstore" {
+				return
+			}
+			if pk := fnPkg(sc); pk == nil || shortPkg(pk.Path()) != "simpledb" {
+				return
+			}
+			for _, g := range moduleReach(p, []*ssa.Function{sc}) {
+				if len(CallsIn(g, Keys("simpledb.DB.rotateWalAndFlushMemstore"))) > 0 {
+					rot = append(rot, s)
+					return
+				}
+			}
+		})
 		if len(rot) == 0 {
 			continue
 		}
